@@ -10,7 +10,7 @@
 //!                "raw":bool?,"shape":k?}
 //!   seg = {"d":[v..],"n":r}; element values are digit values (48 is added)
 //!   unless "raw" is true (bytes as they are).
-//!   shape: iterator adaptor shape 0..8 (C16); default 0 = slice iterators; 7, 8 are not fused.
+//!   shape: iterator adaptor shape 0..9 (C16); default 0 = slice iterators; 7, 8 are not fused; 9 = slices at odd addresses.
 
 use minimal_lexical::Float;
 use serde_json::{json, Value};
@@ -125,6 +125,19 @@ fn call<F: Float>(int: &[u8], frac: &[u8], exp: i32, shape: u64) -> F {
                 },
                 exp,
             )
+        },
+        9 => {
+            // slices that start at ODD / changing addresses (a Vec's buffer is always well aligned, so shape 0 never
+            // exercises alignment-dependent code): the digits are copied to offset 1 + len % 7 of a fresh buffer
+            let oi = 1 + int.len() % 7;
+            let of = 1 + (frac.len() + 3) % 7;
+            let mut a = vec![b'9'; oi];
+            a.extend_from_slice(int);
+            a.push(b'9');
+            let mut b = vec![b'9'; of];
+            b.extend_from_slice(frac);
+            b.push(b'9');
+            minimal_lexical::parse_float::<F, _, _>(a[oi..oi + int.len()].iter(), b[of..of + frac.len()].iter(), exp)
         },
         _ => {
             // the same with std adaptors (map_while is not fused either)
@@ -340,7 +353,7 @@ fn main() {
                     for round in 0..hammer {
                         for &idx in &mine {
                             let mut r = recs[idx].clone();
-                            let shape = ((round + t) % 9) as u64;
+                            let shape = ((round + t) % 10) as u64;
                             r["shape"] = Value::from(shape);
                             let o = run_one(&r, false, false);
                             let cur = (o["out"]["kind"].clone(), o["out"]["bits"].clone());
@@ -360,7 +373,7 @@ fn main() {
                     let step = [1usize, 3, 7, 11, 13, 17, 19, 23][t % 8];
                     let idx = (k * step + t * 5) % n;
                     let mut r = recs[idx].clone();
-                    let shape = (r.get("shape").and_then(|v| v.as_u64()).unwrap_or(0) + t as u64 + (k as u64 / 3)) % 9;
+                    let shape = (r.get("shape").and_then(|v| v.as_u64()).unwrap_or(0) + t as u64 + (k as u64 / 3)) % 10;
                     r["shape"] = Value::from(shape);
                     let o = run_one(&r, poison && ((k + t) % 2 == 0), false);
                     v.push(json!({"id": o["id"], "thread": t, "seq": k, "shape": shape, "kind": o["out"]["kind"], "bits": o["out"]["bits"]}));
